@@ -312,3 +312,51 @@ def std_matches(subject):
         AbsMatch(subject, 12, 14, [(None, 12, 13), ("n1", 13, 13), (None, 13, 14), ("n2", 14, 14), ("n3", -1, -1)]),
         AbsMatch(subject, n - 2, n, [(None, -1, -1), ("n1", n - 2, n - 1), (None, n - 1, n), ("n2", n, n), ("n3", n - 2, n)]),
     ]
+
+
+# a text witness made of the characters matching code could treat specially -----------------
+def rich_text(model: Model):
+    """Line-ending and control characters, a non-character, an astral character, plus every short string constant
+    that occurs in the source of the functions reachable from the matching methods (sentinels, separators, ...)."""
+    import ast
+    from ..consts import call_closure
+    parts = ["ab\r\ncd\re\n\tf\x00g\uffffh\u2028i\u0085j\U0001f600k  l\\r\\nm"]
+    seen = set()
+    for f in call_closure(model, list(matching_methods(model).values())):
+        doc = ast.get_docstring(f.node, clean=False)
+        for n in ast.walk(f.node):
+            if isinstance(n, ast.Constant) and isinstance(n.value, str) and 0 < len(n.value) <= 4 and n.value != doc \
+                    and n.value not in seen and not n.value.isalnum():
+                seen.add(n.value)
+                parts.append(n.value)
+    for ci in (model.pregex,):
+        for name, expr in getattr(ci, "attrs", {}).items():
+            if isinstance(expr, ast.Constant) and isinstance(expr.value, str) and 0 < len(expr.value) <= 4 and expr.value not in seen:
+                seen.add(expr.value)
+                parts.append(expr.value)
+    return "x".join(parts) + "\r\n"
+
+
+def subject_rule(ctx, model: Model, rule, names):
+    """Whatever `re` is applied to must be the very text the caller supplied: positions, captures, pieces and
+    replacements are all relative to it."""
+    rich = rich_text(model)
+    meths = matching_methods(model)
+    for name in names:
+        f = meths[name]
+        kw = {p: (rich if p == "source" else False if p == "is_path" else 1 if p in ("n_left", "n_right") else "<repl>" if p == "repl"
+                  else 0 if p == "count" else True) for p in f.params if p != "self"}
+        for compiled in (False, True):
+            kind, v, hooks, o = run_method(model, name, [], kw, compiled=compiled, matches_for=std_matches)
+            if kind == "return" and hasattr(v, "__next__"):
+                list(v)
+            seen = [c.get("subject") for c in hooks.calls if c.get("subject") is not None]
+            inp = f"{name}(text with CR LF, controls, U+FFFF and the source's own string constants) compiled={compiled}"
+            ctx.instance(rule, key=inp, sample=f"{inp}: re received {len(seen)} subject(s), identical to the source: {all(x == rich for x in seen)}")
+            bad = [x for x in seen if x != rich]
+            if bad or kind == "raise":
+                i = next((k for k, (a, b) in enumerate(zip(bad[0], rich)) if a != b), min(len(bad[0]), len(rich))) if bad else 0
+                ctx.violation(rule, f.relpath, f.short, "<text given to re>",
+                              "re is applied to a text that differs from the source the caller supplied", f.node.lineno, inp=inp,
+                              detail=(f"first difference at offset {i}: source has {rich[i:i + 4]!r}, re received {bad[0][i:i + 4]!r}"
+                                      if bad else f"raises {v.name}"))
